@@ -41,6 +41,38 @@ def step (st : St) (now : Nat) : Op → Obs × St
   | .logout tok => (.done, logout st tok)
   | .restart => (.done, restart st now)
 
+/-! ### optionalAuthThird: which credential of a request is looked at
+
+`r.Cookie("agh_session")` returns the FIRST cookie of that name; if there is
+one, the session is checked and any `Authorization` header is ignored entirely
+(so a stale cookie hides correct Basic credentials).  Only without such a
+cookie are HTTP Basic credentials looked at, through `checkBasicAuth`;
+anything that `r.BasicAuth()` does not parse (malformed Basic, Bearer, …)
+is no credential at all. -/
+
+inductive CookieForm where
+  | absent
+  /-- the first `agh_session` cookie; its value resolves to this token (a value
+  that is no issued token — unknown, malformed or upper-cased hex — resolves to
+  a never-issued number) -/
+  | token (tok : Nat)
+  deriving DecidableEq, Repr
+
+inductive AuthForm where
+  | absent
+  | basic (good : Bool)
+  /-- malformed Basic, Bearer, … -/
+  | unparsed
+  deriving DecidableEq, Repr
+
+/-- the operation a request to a protected route amounts to (`none`: refused
+without looking at anything) -/
+def authOp (c : CookieForm) (a : AuthForm) (req : Req) : Option Op :=
+  match c, a with
+  | .token t, _ => some (.request t)
+  | .absent, .basic g => some (.basic req g)
+  | .absent, _ => none
+
 structure TokInfo where
   created : Nat      -- s
   lastOK : Nat       -- s: creation or the last request it authenticated
